@@ -943,6 +943,16 @@ func (h *handler) asyncSyncAdChain(ctx context.Context) {
 	syncer, updatePeerstore, err := h.makeSyncer(peerInfo, true)
 	if err != nil {
 		log.Errorw("Cannot make syncer for announce", "err", err, "peer", h.peerID)
+		// The sync failed before it could start. Report it like any other
+		// failed sync, and allow another announce for the same CID.
+		if h.subscriber.receiver != nil {
+			h.subscriber.receiver.UncacheCid(nextCid)
+		}
+		h.subscriber.inEvents <- SyncFinished{
+			Cid:    nextCid,
+			PeerID: h.peerID,
+			Err:    err,
+		}
 		return
 	}
 
